@@ -344,6 +344,7 @@ void reb_simulation_remove_all_particles(struct reb_simulation* const r){
 	r->N_allocated 	= 0;
 	r->N_active 	= -1;
 	r->N_var 	= 0;
+	r->N_var_config = 0; // the variational particles are gone as well
 	free(r->particles);
 	r->particles 	= NULL;
 	reb_tree_delete(r); // tree cells refer to particle indices
